@@ -54,6 +54,15 @@ def _case(draw):
     for e in extra:
         if e not in [n.rstrip("/") for n in names]:
             names.append(e)
+    # look-alikes: names that differ in bytes but are equal under a normalisation or folding a sort key might apply
+    # (composed / decomposed accent, letter case, full-width letters): a tie under such a key must not fall back to the
+    # order of enumeration
+    for tw in draw(st.lists(st.sampled_from([["caf\xc3\xa9.txt", "cafe\xcc\x81.txt"], ["Index.txt", "index.txt", "INDEX.TXT"],
+                                             ["\xef\xbd\x86ull.txt", "full.txt"], ["stra\xc3\x9fe", "strasse", "STRASSE"],
+                                             ["\xc3\x85ngstr\xc3\xb6m", "A\xcc\x8angstro\xcc\x88m", "\xe2\x84\xabngstr\xc3\xb6m"]]), max_size=2)):
+        for n in tw:
+            if n not in names:
+                names.append(n)
     handler = draw(st.sampled_from(["umn", "umn", "dir"]))
     if handler == "dir":
         # dot-files the ignore pattern does not cover: UMN only (see ASSUMPTIONS)
